@@ -23,7 +23,7 @@ THEOREMS = {
     "slp": ["c07_slp_col_correct", "c07_slp_tensor_correct", "c07_slp_tensor_error", "c07_lens_from_eos"],
     "ps": ["c07_slp_packed_correct", "c07_slp_packed_sorted", "c07_slp_packed_eq_padded"],
     "walk": ["c07_walk_correct", "c07_dist_logprob_eq_walk_logp"],
-    "dist": ["c07_dist_log_prob_spec", "c07_dist_logprob_eq_walk_logp", "c07_padding_keeps_score", "c07_support_characterised",
+    "dist": ["c07_dist_log_prob_spec", "c07_dist_logprob_eq_walk_logp", "c07_padding_keeps_score", "c07_stacked_logprob_eq_walk_logp", "c07_support_characterised",
              "c07_support_nodup", "c07_support_mass_one", "c07_samples_in_support"],
     "greedy": ["c07_greedy_argmax", "c07_greedy_correct", "c07_greedy_error"],
 }
